@@ -653,8 +653,9 @@ def K3_code_fill(ctx):
         # decision atoms
         some = [a for a in p.events if a.kind == 'atom' and a.d['term'][0] == 'discr' and a.d['outcome'] in ('Some', 'None') and a.d['term'][1][0] != 'call' and not is_field(a.d['term'][1], 'MemoryEntry.data')]
         empty = [a for a in p.events if a.kind == 'atom' and a.d['term'][0] == 'call' and callee_matches(a.d['term'][1], 'AccountInfo::is_empty_code_hash')]
-        none = [a for a in p.events if a.kind == 'atom' and a.d['term'][0] == 'call' and callee_matches(a.d['term'][1], 'Option::is_none') and mentions_field(a.d['term'][2][0], 'AccountInfo.code')]
-        need = bool(empty) and empty[-1].d['outcome'] == 'false' and bool(none) and none[-1].d['outcome'] == 'true'
+        # "code absent", however it is tested (is_none / is_some / match / if let)
+        codef = [of for of in (option_fact(a) for a in p.events) if of and of[1] in ('Some', 'None') and of[0][0] == 'field' and of[0][2].endswith('AccountInfo.code')]
+        need = bool(empty) and empty[-1].d['outcome'] == 'false' and bool(codef) and codef[-1][1] == 'None'
         if need:
             n += 1
         if need != bool(cb):
